@@ -116,24 +116,27 @@ type CallSpec struct {
 	Kind string // "submit" | "send" | "close"
 	Seq  int32  // submit/close: what NextSequence returns for it; send: the packet's sequence
 	P    interface{}
+	// DeadlineFails: the transport refuses SetWriteDeadline during this call (only felt when Conn.WriteTimeout > 0)
+	DeadlineFails bool
 }
 
 type Call struct {
-	ID    int
-	G     int
-	Kind  string // submit | send | close | ping | kaclose
-	Seq   int32
-	P     interface{}
-	term  string // Gallina term of the frame Marshal yields
-	ctx   context.Context
-	stop  context.CancelFunc
-	begun int // begin order, 0 = not begun
-	said  bool
-	ret   bool
-	Resp  interface{}
-	Err   error
-	Panic string
-	RetAt time.Time
+	ID            int
+	G             int
+	Kind          string // submit | send | close | ping | kaclose
+	Seq           int32
+	P             interface{}
+	DeadlineFails bool
+	term          string // Gallina term of what Send obtains before it calls the transport Write
+	ctx           context.Context
+	stop          context.CancelFunc
+	begun         int // begin order, 0 = not begun
+	said          bool
+	ret           bool
+	Resp          interface{}
+	Err           error
+	Panic         string
+	RetAt         time.Time
 }
 
 type Delivery struct {
@@ -512,13 +515,16 @@ func (w *World) Go(g int, specs ...CallSpec) []*Call {
 	var cs []*Call
 	w.mu.Lock()
 	for _, sp := range specs {
-		c := &Call{ID: len(w.calls), G: g, Kind: sp.Kind, Seq: sp.Seq, P: sp.P}
+		c := &Call{ID: len(w.calls), G: g, Kind: sp.Kind, Seq: sp.Seq, P: sp.P, DeadlineFails: sp.DeadlineFails}
 		c.ctx, c.stop = context.WithCancel(context.Background())
 		switch sp.Kind {
 		case "close":
 			c.term = frameTerm(&pdu.Unbind{}, sp.Seq)
 		default:
 			c.term = frameTerm(sp.P, sp.Seq)
+		}
+		if sp.DeadlineFails {
+			c.term = "(send_prep false " + c.term + ")"
 		}
 		w.calls = append(w.calls, c)
 		cs = append(cs, c)
@@ -534,6 +540,7 @@ func (w *World) Go(g int, specs ...CallSpec) []*Call {
 				w.seqQ[id] = append(w.seqQ[id], c.Seq)
 			}
 			w.mu.Unlock()
+			w.T.FailWriteDeadline(id, c.DeadlineFails)
 			w.runCall(c)
 		}
 	}, func(string) {})
